@@ -9,6 +9,11 @@
 //!   r<i>    release parked caller i
 //!   g       open the gate: handlers' shutdown futures may complete
 //!   x       the endpoint is closed from outside the router (`Endpoint::close`)
+//!   w       hold: let HOLD_MS of real time pass with nothing else happening, then take the
+//!           snapshot of the preceding action again (it replaces that snapshot; `w` is not an
+//!           action of the model, which has no notion of time: nothing may change just
+//!           because time passes — in particular a caller waiting on handlers whose gate
+//!           is still closed must still be waiting)
 //! The whole case runs on one current-thread runtime, so the callers and the run loop
 //! interleave exactly at their await points; after every action the harness waits for
 //! quiescence and takes a snapshot
@@ -33,6 +38,9 @@ use iroh_base::verif_hooks as sched;
 
 const POINT: &str = "router.shutdown.after_check";
 const NCALLERS: usize = 3;
+/// Real time a `w` token lets pass (longer than any plausible "give up on the handler" timeout
+/// that is still short enough to run in the quick check).
+const HOLD_MS: u64 = 4500;
 
 #[derive(Debug, Clone)]
 struct Gated {
@@ -60,6 +68,7 @@ enum Act {
     Release(usize),
     Gate,
     ExtClose,
+    Hold,
 }
 
 fn act_raw(a: &Act) -> String {
@@ -69,6 +78,7 @@ fn act_raw(a: &Act) -> String {
         Act::Release(i) => format!("r{i}"),
         Act::Gate => "g".into(),
         Act::ExtClose => "x".into(),
+        Act::Hold => "w".into(),
     }
 }
 
@@ -80,6 +90,7 @@ fn act_parse(t: &str) -> Act {
         "r" => Act::Release(r.parse().unwrap()),
         "g" => Act::Gate,
         "x" => Act::ExtClose,
+        "w" => Act::Hold,
         _ => panic!("bad action {t}"),
     }
 }
@@ -91,6 +102,7 @@ fn act_coq(a: &Act) -> String {
         Act::Release(i) => format!("C41.ARelease {i}"),
         Act::Gate => "C41.AGate".into(),
         Act::ExtClose => "C41.AExtClose".into(),
+        Act::Hold => unreachable!("w is not a model action"),
     }
 }
 
@@ -128,6 +140,16 @@ fn generate(rng: &mut Rng, i: u64, _n: u64) -> String {
         out.push(seqs[k].remove(0));
         if seqs[k].is_empty() {
             seqs.remove(k);
+        }
+    }
+    // rarely (real time is expensive): hold while the handlers' gate is still closed and a
+    // shutdown is in progress
+    if h > 0 && rng.chance(1, 16) {
+        let g = out.iter().position(|a| *a == Act::Gate).unwrap();
+        let triggered =
+            out[..g].iter().any(|a| matches!(a, Act::Start(_) | Act::Release(_) | Act::ExtClose));
+        if triggered {
+            out.insert(g, Act::Hold);
         }
     }
     format!("{h} {}", out.iter().map(act_raw).collect::<Vec<_>>().join(" "))
@@ -290,6 +312,15 @@ async fn run_case(h: usize, acts: &[Act]) -> Vec<Snap> {
                 w.gate_open = true;
                 let _ = w.gate_tx.send(true);
             }
+            Act::Hold => {
+                // only real time passes; the harness does nothing
+                tokio::time::sleep(Duration::from_millis(HOLD_MS)).await;
+                w.quiesce().await;
+                if snaps.pop().is_some() {
+                    snaps.push(w.snapshot());
+                }
+                continue;
+            }
             Act::ExtClose => {
                 if !w.ext_closed {
                     w.ext_closed = true;
@@ -329,7 +360,8 @@ fn run(raw: &str) -> (String, String) {
     let mut it = raw.split_whitespace();
     let h: usize = it.next().unwrap().parse().unwrap();
     let acts: Vec<Act> = it.map(act_parse).collect();
-    let coq_in = format!("({h}, {})", coq_list(acts.iter(), act_coq));
+    let coq_in =
+        format!("({h}, {})", coq_list(acts.iter().filter(|a| **a != Act::Hold), act_coq));
     let acts2 = acts.clone();
     let r = catch(move || {
         let rt = tokio::runtime::Builder::new_current_thread().enable_all().build().unwrap();
